@@ -225,6 +225,11 @@ class Form(Node):
                 else:
                     H = M / (e - 1)
 
+            if abs(H) > 10:
+                # The starters above are only suited to moderate mean anomalies, and
+                # overflow sinh/cosh for large ones: use the asymptotic solution instead
+                H = np.arcsinh(M / e)
+
             def next_H(H, e, M):
                 return H + (M - e * sinh(H) + H) / (e * cosh(H) - 1)
 
